@@ -84,7 +84,7 @@ func programsFor(prop string) []string {
 	switch prop {
 	case "C18", "C19":
 		return []string{"root"}
-	case "C09", "C10", "C12", "C20":
+	case "C04", "C09", "C10", "C12", "C20":
 		return []string{"v5", "root"}
 	}
 	return []string{"v5"}
@@ -113,6 +113,7 @@ func stageRoot() (string, func(), error) {
 	if err != nil {
 		return "", func() {}, err
 	}
+	stagedRoots = append(stagedRoots, dir)
 	cleanup := func() { os.RemoveAll(dir) }
 	cp := func(src, dst string) error {
 		b, err := os.ReadFile(src)
@@ -431,7 +432,7 @@ func cmdCheck(prop, tier string) int {
 			return 2
 		}
 		for f := range e.srcFiles {
-			files[f] = fileSHA(f)
+			files[realPath(f)] = fileSHA(f)
 		}
 		sc := selectionFor(e, prop, which)
 		for _, f := range sc {
@@ -655,4 +656,16 @@ func cmdReplay(path string) int {
 		}
 	}
 	return rc
+}
+
+// the legacy root package is analysed from a throw-away copy (it has no go.mod); reports name the real files
+var stagedRoots []string
+
+func realPath(p string) string {
+	for _, d := range stagedRoots {
+		if strings.HasPrefix(p, d+"/") {
+			return filepath.Join(*flagRepo, p[len(d)+1:])
+		}
+	}
+	return p
 }
